@@ -64,6 +64,13 @@ def choose(existing, requested, path):
         sets.append([v for k, v in cfgh.parse_setconf(line) if k.lower() == "socksport"])
         return b"250 OK\r\n"
     sim.handlers["SETCONF"] = setconf
+    if existing.get("lookupfails"):
+        # the second step of the default lookup is refused (a Tor that does not know the __*Port options)
+        def getconf(line):
+            if line.split(" ", 1)[1].lower() == "__socksport":
+                return b"552 Unrecognized configuration key \"__SocksPort\"\r\n"
+            return None
+        sim.handlers["GETCONF"] = getconf
     proto.makeConnection(tr)
     sim.pump()
     reactor = oa.PortReactor()
@@ -93,7 +100,7 @@ def choose(existing, requested, path):
         err = True
     newport = reactor.given[0][0] if reactor.given else 0
     eff = lines if lines else ([existing["default"]] if existing.get("default") else [])
-    v = dict(part="a", path=path, existing=[entry(l) for l in eff], requested=requested or "",
+    v = dict(part="a", path=path, lookupfails=bool(existing.get("lookupfails")), existing=[entry(l) for l in eff], requested=requested or "",
              reqep=ep_record_from_text(requested) if requested else dict(kind="", host="", port=0, path=""),
              obs=dict(setconf=sets[0] if sets else [], nset=len(sets), ep=ep_record(ep) if ep is not None else dict(kind="none", host="", port=0, path=""),
                       newport=newport, newtext=str(newport), err=err))
